@@ -869,6 +869,7 @@ impl<'a> Sk<'a> {
                         match &*arm.body {
                             Expr::Block(b) => self.block_tail(&b.block, &mut inner)?,
                             other => {
+                                self.tail_hooks(other, &mut inner);
                                 let v = self.retval(other, &mut inner)?;
                                 if v != "__returned__" {
                                     inner.push(self.ret_stmt(&v));
@@ -894,6 +895,7 @@ impl<'a> Sk<'a> {
                     match &*arm.body {
                         Expr::Block(b) => self.block_tail(&b.block, &mut inner)?,
                         other => {
+                            self.tail_hooks(other, &mut inner);
                             let v = self.retval(other, &mut inner)?;
                             if v != "__returned__" {
                                 inner.push(self.ret_stmt(&v));
@@ -906,11 +908,22 @@ impl<'a> Sk<'a> {
                 Ok(())
             }
             other => {
+                self.tail_hooks(other, out);
                 let v = self.retval(other, out)?;
                 if v != "__returned__" {
                     out.push(self.ret_stmt(&v));
                 }
                 Ok(())
+            }
+        }
+    }
+    /// S17: `on stmt` hooks also fire on a simple tail expression (the value of a block / match arm), before its `return`
+    fn tail_hooks(&mut self, e: &syn::Expr, out: &mut Vec<String>) {
+        let toks = e.to_token_stream();
+        for (pat, stmt, raw) in self.on_stmt.clone() {
+            if pattern::contains(&pat, toks.clone()) {
+                out.push(format!("{stmt} // hook: stmt `{raw}` (tail expression)"));
+                self.used_hooks.push(format!("stmt {raw}"));
             }
         }
     }
